@@ -164,12 +164,6 @@ Section WF.
 End WF.
 
 (* ---- second half: what the interpreter shows for a live exception ------------------ *)
-(* One traceback entry as traceback.extract_tb reports it: file, line number,
-   code name, and the raw text of that line from linecache (empty if unavailable). *)
-Record live_frame := mkLive { lv_file : str; lv_lineno : N; lv_name : str; lv_raw : str }.
-(* the exception: __module__, __qualname__, __name__ of its type and str(value) *)
-Record live_exc := mkExc { ex_module : str; ex_qualname : str; ex_name : str; ex_str : str }.
-
 Definition L_main : str := [95;95;109;97;105;110;95;95].              (* "__main__" *)
 Definition L_builtins : str := [98;117;105;108;116;105;110;115].      (* "builtins" *)
 
